@@ -54,6 +54,9 @@ TUS = {
                 "flags": ["-fno-builtin-malloc", "-fno-builtin-free", "-fno-builtin-calloc", "-fno-builtin-realloc", "-fno-builtin-aligned_alloc", "-fno-builtin-posix_memalign", "-fno-builtin-memalign"]},
     "t_alloc_san": {"sources": ["t_alloc_san.cpp"], "parts": [None],
                     "flags": ["-O1", "-fsanitize=address,undefined", "-fsanitize-undefined-trap-on-error", "-fno-omit-frame-pointer"]},
+    "t_prefetch": {"sources": ["t_prefetch.cpp"], "parts": [None]},
+    "t_prefetch32": {"sources": ["t_prefetch.cpp"], "parts": [None], "flags": ["-DAVEL_L1_CACHE_LINE_SIZE=32", "-DAVEL_L2_CACHE_LINE_SIZE=32", "-DAVEL_L3_CACHE_LINE_SIZE=32"]},
+    "t_prefetch128": {"sources": ["t_prefetch.cpp"], "parts": [None], "flags": ["-DAVEL_L1_CACHE_LINE_SIZE=128", "-DAVEL_L2_CACHE_LINE_SIZE=128", "-DAVEL_L3_CACHE_LINE_SIZE=128"]},
     "t_select": {"sources": ["t_select.cpp"], "parts": INT_PARTS + FLT_PARTS},
 }
 
@@ -87,6 +90,13 @@ def alloc_cfgs(tier):
     cfgs = [C.Config([], "gcc", 11), C.Config([], "gcc", 17), C.Config(["SSE2"], "gcc", 11), C.Config([], "clang", 11), C.Config([], "clang", 17), C.Config(["SSE2"], "clang", 17)]
     if tier == "thorough":
         cfgs += [C.Config([], "gcc", 14), C.Config([], "gcc", 20), C.Config(["SSE2"], "gcc", 20), C.Config(C.FULL, "gcc", 11), C.Config([], "clang", 20)]
+    return cfgs
+
+
+def prefetch_cfgs(tier):
+    cfgs = [C.Config([], "gcc", 11), C.Config(["SSE2"], "gcc", 11), C.Config(C.FULL, "gcc", 11), C.Config([], "clang", 11), C.Config(["SSE2"], "clang", 11)]
+    if tier == "thorough":
+        cfgs += [C.Config(["AVX2"], "gcc", 17), C.Config(C.FULL, "clang", 20), C.Config([], "gcc", 20), C.Config(["X86"], "gcc", 11), C.Config(["SSE4_2"], "clang", 14)]
     return cfgs
 
 
@@ -287,5 +297,16 @@ PROPS = {
                        "block of the C allocator and disjoint from other live ranges, other blocks' fill patterns intact, free() receives exactly live pointers; at the end of every "
                        "history no leak and no red-zone damage. The visited set is keyed on the sorted multiset: sound because the allocator is stateless (is_always_equal, no free list)",
         "assumptions": ["glibc-like environment: malloc returns 16-byte aligned addresses", "heap errors under ASan abort the sanitizer run and are reported as a crash of that job"],
+    },
+    "C20": {
+        "tus": ["t_prefetch", "t_prefetch32", "t_prefetch128"],
+        "configs": prefetch_cfgs,
+        "rule": "prefetch_read / prefetch_write x levels L1/L2/L3 x {const void*, uint8, 4-, 64-, 4096-byte objects} x pointer at every byte offset of a 64-byte line in: a valid page, "
+                "the last line before a PROT_NONE page, the last data line before a read-only page, inside PROT_NONE pages, a read-only page, null, a non-canonical address, the top "
+                "of the address space x n in {0,1,63,64,65,4095,4096,4097,3 pages} (bytes, or the object count covering them); builds none / AVEL_SSE2 / full with GCC and Clang, "
+                "cache-line macros 32/64/128. non-trivial: any region other than the plain valid page.",
+        "explanation": "the complete finite menu of environment placements is enumerated; oracle: no signal, and a checksum over the whole arena (all six pages) is unchanged at the end "
+                       "of every (function, level, type) pass",
+        "assumptions": ["AVEL_PREFETCH alone does not compile (__PREFETCH__ is no compiler macro): decided and reported by C19, not built here"],
     },
 }
